@@ -389,21 +389,10 @@ def rule_d(ctx):
     dispatch.rule_lookup(ctx, 'C16.d')
     dispatch.rule_routing(ctx, 'C16.d', only=['SetupFrame', 'ResumeFrame'])
     rl = dispatch.receiver(ctx)
-    # error replies use the stream id of the frame being handled
-    sites = []
-    for n in walk_local(rl.node):
-        if isinstance(n, ast.ExceptHandler):
-            for c in ast.walk(n):
-                if isinstance(c, ast.Call) and isinstance(c.func, ast.Attribute) and c.func.attr == 'send_error':
-                    sites.append(c)
-    rep.require('C16.d', 'error replies in the receive loop', len(sites), 2)
-    loopvars = {n.target.id for n in walk_local(rl.node) if isinstance(n, ast.AsyncFor) and
-                isinstance(n.target, ast.Name)}
-    ok = all(len(c.args) >= 1 and isinstance(c.args[0], ast.Attribute) and c.args[0].attr == 'stream_id' and
-             isinstance(c.args[0].value, ast.Name) and c.args[0].value.id in loopvars for c in sites)
-    rep.add('C16.d', '_receiver_listen / error reply on the offending stream', rl, ok,
-            'every error reply uses the stream id of the frame being handled (0 for SETUP/RESUME)' if ok else
-            'an error reply does not use the stream id of the frame being handled')
+    # error replies use the stream id of the frame being handled (0 for SETUP / RESUME): shared C12.b, decided on the
+    # paths of the receive loop (a helper between the handler and send_error does not matter)
+    from .c12 import rule_b as c12b
+    c12b(ctx, check_untouched=False)
 
 
 def rule_plumbing(ctx):
